@@ -287,6 +287,11 @@ def finalise(report, level, level_checker_cmd):
     )
     with open(os.path.join(VERIF, 'evidence', '%s.json' % pid), 'w') as f:
         json.dump(ev, f, indent=1, default=str)
+    if os.environ.get('VF_SLOW'):
+        for r in sorted(report.obligations, key=lambda r: -r['seconds'])[:8]:
+            print('SLOW %.1fs %s %s' % (r['seconds'], r['name'], r['tried']))
+        for s_ in report.standins:
+            print('STANDIN %.1fs %s' % (s_['seconds'], s_['label'][:60]))
     for u in undecided:
         print('UNDECIDED: property=%s %s' % (pid, u))
     for ln in lines:
@@ -301,9 +306,14 @@ def write_baseline(reports):
     base = load_json(BASELINE_FILE, {})
     for rep in reports:
         for f in rep.functions:
-            base[f['name']] = dict(hash=f['hash'], obligations={})
+            base.setdefault(f['name'], {})
+            base[f['name']].update(hash=f['hash'])
+            base[f['name']].setdefault('obligations', {})
+            base[f['name']].setdefault('solver', {})
         for r in rep.obligations:
-            if r['function'] in base:
-                base[r['function']]['obligations'][r['name']] = r['verdict']
+            base.setdefault(r['function'], dict(hash=None, obligations={}, solver={}))
+            base[r['function']].setdefault('obligations', {})[r['name']] = r['verdict']
+            if r['verdict'] == 'unsat' and r['solver'] in ('z3-new', 'cvc5', 'z3-4.8'):
+                base[r['function']].setdefault('solver', {})[r['name']] = r['solver']
     with open(BASELINE_FILE, 'w') as f:
         json.dump(base, f, indent=0, sort_keys=True)
